@@ -22,6 +22,9 @@ use crate::{
 use multiaddr::Multiaddr;
 use tokio::sync::mpsc::{channel, error::TryRecvError};
 
+/// Per-thread log of the `TransportService::dial` calls and their immediate results.
+pub use crate::protocol::transport_service::verif_dial_log;
+
 /// Which `select!` arm of the event loop fired in [`VerifProtocol::step`].
 #[derive(Debug, Clone, Copy, PartialEq, Eq)]
 pub enum VerifStep {
@@ -89,7 +92,7 @@ pub struct VerifProtocol {
     inner: Option<RequestResponseProtocol>,
     _manager: Option<TransportManager>,
     local_peer: PeerId,
-    tx: Sender<InnerTransportEvent>,
+    tx: Option<Sender<InnerTransportEvent>>,
     connections: HashMap<PeerId, VerifConnection>,
     permits: HashMap<usize, Permit>,
     next_connection: usize,
@@ -171,7 +174,7 @@ impl VerifProtocol {
                 inner: Some(RequestResponseProtocol::new(service, config)),
                 _manager: Some(manager),
                 local_peer,
-                tx,
+                tx: Some(tx),
                 connections: HashMap::new(),
                 permits: HashMap::new(),
                 next_connection: 0usize,
@@ -215,8 +218,8 @@ impl VerifProtocol {
             },
         );
         let address: Multiaddr = "/ip4/10.9.9.9/tcp/9999".parse().expect("valid address");
-        self.tx
-            .try_send(InnerTransportEvent::ConnectionEstablished {
+        let Some(tx) = self.tx.as_ref() else { return Default::default() };
+        tx.try_send(InnerTransportEvent::ConnectionEstablished {
                 peer,
                 connection: id,
                 endpoint: Endpoint::dialer(address, id),
@@ -242,8 +245,8 @@ impl VerifProtocol {
             },
         );
         let address: Multiaddr = "/ip4/10.9.9.9/tcp/9999".parse().expect("valid address");
-        self.tx
-            .try_send(InnerTransportEvent::ConnectionEstablished {
+        let Some(tx) = self.tx.as_ref() else { return Default::default() };
+        tx.try_send(InnerTransportEvent::ConnectionEstablished {
                 peer,
                 connection: id,
                 endpoint: Endpoint::dialer(address, id),
@@ -254,9 +257,8 @@ impl VerifProtocol {
 
     /// Report that the connection to `peer` was closed.
     pub fn inject_connection_closed(&mut self, peer: PeerId) {
-        if let Some(connection) = self.connections.remove(&peer) {
-            self.tx
-                .try_send(InnerTransportEvent::ConnectionClosed {
+        if let (Some(connection), Some(tx)) = (self.connections.remove(&peer), self.tx.as_ref()) {
+            tx.try_send(InnerTransportEvent::ConnectionClosed {
                     peer,
                     connection: connection.id,
                 })
@@ -266,8 +268,8 @@ impl VerifProtocol {
 
     /// Report a dial failure for `peer`.
     pub fn inject_dial_failure(&mut self, peer: PeerId) {
-        self.tx
-            .try_send(InnerTransportEvent::DialFailure {
+        let Some(tx) = self.tx.as_ref() else { return Default::default() };
+        tx.try_send(InnerTransportEvent::DialFailure {
                 peer,
                 addresses: Vec::new(),
             })
@@ -334,8 +336,8 @@ impl VerifProtocol {
             ),
             None => (Direction::Inbound, 0usize, Permit::new(connection.tx.clone())),
         };
-        self.tx
-            .try_send(InnerTransportEvent::SubstreamOpened {
+        let Some(tx) = self.tx.as_ref() else { return Default::default() };
+        tx.try_send(InnerTransportEvent::SubstreamOpened {
                 peer,
                 protocol: self.protocol.clone(),
                 fallback: fallback.map(ProtocolName::from),
@@ -353,6 +355,22 @@ impl VerifProtocol {
         true
     }
 
+    /// Report that opening substream `id` failed; `kind`: 0 = `ConnectionClosed`, 1 = the
+    /// multistream-select failure (protocol not supported), 2 = an i/o error of kind
+    /// `NotConnected`.
+    pub fn inject_substream_open_failure_kind(&mut self, id: usize, kind: usize) {
+        if kind != 2 {
+            return self.inject_substream_open_failure(id, kind == 1);
+        }
+        self.permits.remove(&id);
+        let Some(tx) = self.tx.as_ref() else { return };
+        tx.try_send(InnerTransportEvent::SubstreamOpenFailure {
+            substream: SubstreamId::from(id),
+            error: SubstreamError::IoError(ErrorKind::NotConnected),
+        })
+        .expect("channel has room");
+    }
+
     /// Report that opening substream `id` failed (`unsupported` selects the multistream failure).
     pub fn inject_substream_open_failure(&mut self, id: usize, unsupported: bool) {
         self.permits.remove(&id);
@@ -363,8 +381,8 @@ impl VerifProtocol {
         } else {
             SubstreamError::ConnectionClosed
         };
-        self.tx
-            .try_send(InnerTransportEvent::SubstreamOpenFailure {
+        let Some(tx) = self.tx.as_ref() else { return Default::default() };
+        tx.try_send(InnerTransportEvent::SubstreamOpenFailure {
                 substream: SubstreamId::from(id),
                 error,
             })
@@ -419,7 +437,80 @@ impl VerifProtocol {
 
     /// Sorted copy of the bookkeeping.
     pub fn dump(&self) -> VerifDump {
-        let this = self.inner.as_ref().expect("protocol was handed out by take_run");
+        dump_of(self.inner.as_ref().expect("protocol was handed out by take_run"))
+    }
+
+    /// Overwrite what the transport manager believes about `peer` (decides the immediate result
+    /// of `TransportService::dial`); tags as in `TransportManager::verif_force_peer_state`.
+    pub fn force_manager_peer(&mut self, peer: PeerId, tag: usize) {
+        if let Some(manager) = self._manager.as_ref() {
+            let address: Multiaddr = "/ip4/10.0.0.77/tcp/7777"
+                .parse::<Multiaddr>()
+                .expect("valid address")
+                .with(multiaddr::Protocol::P2p(peer.into()));
+            manager.verif_force_peer_state(peer, tag, address);
+        }
+    }
+
+    /// `true`: fill the manager's command channel (`dial()` fails with `ChannelClogged` once it
+    /// gets as far as sending its command); `false`: empty it. Returns the peers of the
+    /// `DialPeer` commands found in the channel when it is emptied.
+    pub fn clog_manager(&mut self, clog: bool) -> Vec<PeerId> {
+        let Some(manager) = self._manager.as_mut() else {
+            return Vec::new();
+        };
+        let drained = manager.verif_drain_commands();
+        if clog {
+            let address: Multiaddr = "/ip4/10.0.0.78/tcp/7778"
+                .parse::<Multiaddr>()
+                .expect("valid address")
+                .with(multiaddr::Protocol::P2p(PeerId::random().into()));
+            manager.verif_fill_commands(address);
+        }
+        drained
+    }
+
+    /// Close the manager's command channel (the manager task is gone): every later `dial()` that
+    /// gets as far as sending its command fails with `TaskClosed`; the peer table stays.
+    pub fn close_manager_commands(&mut self) {
+        if let Some(manager) = self._manager.as_mut() {
+            manager.verif_close_commands();
+        }
+    }
+
+    /// Drop the sending side of the transport service's event channel: `service.next()` yields
+    /// `None` once the queued events are consumed and the event loop exits.
+    pub fn close_service(&mut self) {
+        self.tx = None;
+        self.connections.clear();
+        self.permits.clear();
+    }
+}
+
+thread_local! {
+    static PUBLISHED: std::cell::RefCell<Option<VerifDump>> = const { std::cell::RefCell::new(None) };
+}
+
+/// Called at the top of every iteration of [`RequestResponseProtocol::run`]: publishes the
+/// bookkeeping for the harness that polls the `run` future by hand on this thread.
+pub(super) fn publish(this: &RequestResponseProtocol) {
+    PUBLISHED.with(|slot| *slot.borrow_mut() = Some(dump_of(this)));
+}
+
+/// The bookkeeping as of the last time the real event loop came back to its `select!`
+/// (`None` if it has not run on this thread since [`reset_published`]).
+pub fn published_dump() -> Option<VerifDump> {
+    PUBLISHED.with(|slot| slot.borrow().clone())
+}
+
+/// Forget the published bookkeeping (a new protocol object is about to run on this thread).
+pub fn reset_published() {
+    PUBLISHED.with(|slot| *slot.borrow_mut() = None);
+}
+
+/// Sorted copy of the bookkeeping.
+fn dump_of(this: &RequestResponseProtocol) -> VerifDump {
+    {
         let key = |peer: &PeerId| peer.to_bytes();
         let mut peers: Vec<_> = this
             .peers
